@@ -449,11 +449,16 @@ let () =
                          let key = (k, d.d_name, x) in
                          if not (Hashtbl.mem must_dead key) then Hashtbl.replace may_dead key (N.add now lifeN)) hist) sent_hist_snapshot
            | WLocal (k, ETick now) ->
+               (* expiry is an event of the history (the PIT entries this update reaped): the nonces an expired entry was last
+                  forwarded with — sent since the last Data that satisfied it — are dead from now until now + lifetime *)
                let k = int_of_n k in
-               Hashtbl.iter (fun (k', nm, _, _, _, _) hist ->
-                   if k' = k then List.iter (fun (_, x, _) ->
-                       let key = (k, nm, x) in
-                       if not (Hashtbl.mem must_dead key) then Hashtbl.replace may_dead key (N.add now lifeN)) hist) sent_hist
+               let gone = Hashtbl.fold (fun ((k', nm, _, _, _, utok) as key) hist acc ->
+                   if k' = k && List.exists (N.eqb utok) ch.ch_expired then begin
+                     List.iter (fun (_, x, _) ->
+                       let dk = (k, nm, x) in
+                       if not (Hashtbl.mem must_dead dk) && not (Hashtbl.mem may_dead dk) then Hashtbl.replace must_dead dk (N.add now lifeN)) hist;
+                     key :: acc end else acc) sent_hist [] in
+               List.iter (Hashtbl.remove sent_hist) gone
            | WLocal (k, ESweep now) ->
                let k = int_of_n k in
                let drop tbl = let dead = Hashtbl.fold (fun ((k', _, _) as key) exp acc -> if k' = k && N.ltb exp now then key :: acc else acc) tbl [] in
